@@ -179,7 +179,7 @@ def subst_case(draw):
     change = sorted(draw(st.sets(st.integers(0, n - 1), min_size=k, max_size=k)))
     bels = list(case["pels"])
     # injective element map, so that B is never more symmetric than A (otherwise B->A is ambiguous by construction)
-    emap = dict(zip(gen_geom.ALPHABET, draw(st.permutations(["F", "Cl", "Br", "Hf"]))))
+    emap = dict(zip(sorted(set(bels)), draw(st.permutations(["F", "Br", "Hf", "I", "Ge", "Kr"]))))
     for i in change:
         bels[i] = emap[bels[i]]
     case["bels"] = bels
